@@ -30,6 +30,11 @@ for c in vcommits:
         print("verif: %s already on main" % c[:8]); continue
     r = subprocess.run("git -C /verif cherry-pick %s" % c, shell=True, capture_output=True, text=True)
     if r.returncode:
+        un = sh("git -C /verif diff --name-only --diff-filter=U", check=False).split()
+        if un and all(u.startswith("evidence/") or u in ("DESIGN_APPENDIX.md", "known_findings.txt", "MANIFEST.json") for u in un):
+            for u in un: sh("git -C /verif checkout --ours %s && git -C /verif add %s" % (u, u))      # regenerated files: keep ours
+            sh("git -C /verif -c core.editor=true cherry-pick --continue")
+            print("verif: picked", c[:8], "(generated files kept from main)"); continue
         print("verif: cherry-pick of %s stopped:\n%s%s" % (c[:8], r.stdout, r.stderr)); sys.exit(2)
     print("verif: picked", c[:8], sh("git -C /verif log -1 --format=%s"))
 f = "/verif/known_findings.d/%s.json" % pid
